@@ -99,6 +99,12 @@ pub fn closed_form(sc: &Scenario) -> Vec<u8> {
 
 const SPECIAL: [u32; 16] = [0x0, 0x1, 0x9, 0xD, 0x7F, 0x80, 0x7FF, 0x800, 0xD7FF, 0xE000, 0xFFFD, 0xFFFF, 0x10000, 0x1F600, 0x10FFFF, 0xFEFF];
 
+pub const EDGE: [u32; 16] = [0xFEFF, 0x1A, 0x04, 0x00, 0x7F, 0x0D, 0x0B, 0x0C, 0x85, 0x2028, 0x2029, 0xFFFE, 0xFFFF, 0x1B, 0xA0, 0x10FFFF];
+
+pub fn edge_char(rng: &mut Rng) -> char {
+    char::from_u32(*rng.pick(&EDGE)).unwrap_or('\u{FEFF}')
+}
+
 pub fn gen_text(rng: &mut Rng, tier: Tier) -> Vec<u8> {
     let mut s = String::new();
     let size = match rng.below(100) {
@@ -153,6 +159,19 @@ pub fn gen_text(rng: &mut Rng, tier: Tier) -> Vec<u8> {
     }
     if size > 0 && rng.chance(60) {
         s.push_str(nl);
+    }
+    // characters with a history of special treatment, at the very start and the very end of the input
+    if rng.chance(12) {
+        s.insert(0, edge_char(rng));
+    }
+    if rng.chance(12) {
+        if rng.chance(50) && s.ends_with('\n') {
+            s.pop();
+            if s.ends_with('\r') {
+                s.pop();
+            }
+        }
+        s.push(edge_char(rng));
     }
     s.into_bytes()
 }
@@ -355,7 +374,7 @@ impl Property for C14 {
             }
         }
         let n = match tier {
-            Tier::Quick => 60,
+            Tier::Quick => 96,
             Tier::Thorough => 6000,
         };
         let dir = crate::sim::scratch_dir().join("c14real");
@@ -380,6 +399,22 @@ impl Property for C14 {
                 if base.knob("family") == 0 {
                     base.set_knob("k", (base.knob("k")).min(300));
                 }
+            }
+            if i % 4 == 1 {
+                let h = simcore::mix(base.plan.key ^ 0xED6E);
+                let c = char::from_u32(EDGE[(h % 16) as usize]).unwrap_or('\u{FEFF}');
+                let mut t = String::from_utf8_lossy(&base.stdin).into_owned();
+                if (h >> 8) % 2 == 0 {
+                    t.insert(0, c);
+                } else {
+                    if (h >> 9) % 2 == 0 {
+                        while t.ends_with('\n') || t.ends_with('\r') {
+                            t.pop();
+                        }
+                    }
+                    t.push(c);
+                }
+                base.stdin = t.into_bytes();
             }
             let chunks = real::chunks_from_plan(&base.plan, 256);
             // compiled: the input against every compiled family member at one level, all levels in rotation
